@@ -1032,7 +1032,13 @@ func gen(r *Rand, search bool) Scenario {
 		s.URL = false
 	}
 	g := &genState{r: r, s: &s, tags: map[string]bool{}, cacheable: map[uint64]bool{}, keyGen: map[uint64]uint64{}}
-	fam := r.Intn(14)
+	fam := r.Intn(16)
+	switch fam {
+	case 14:
+		fam = 9 // stress and bursts are where the races are found: keep their share (5 of 16; it was 3 of 12)
+	case 15:
+		fam = 10
+	}
 	if search {
 		switch r.Intn(3) {
 		case 0:
